@@ -57,7 +57,8 @@ TaskOf(ty, k) ==
     [] OTHER -> "Collect"
 
 SrcClass(s) == IF s \in {"vec", "vecadv", "slice", "range"} THEN "indexed" ELSE "ticketed"
-LenKnown(s) == s \in {"vec", "slice", "range", "iter", "deque", "list", "btree", "dequeref", "btreeref"}
+LenKnown(s) == s \in {"vec", "vecadv", "slice", "range", "iter", "deque", "list", "btree", "dequeref", "btreeref",
+                     "hashset", "hashsetref", "heap", "heapref", "listref"}
 
 Resolve(p) ==
   LET pr == FinalParams(p)
